@@ -157,6 +157,12 @@ for directed in (False, True):
                                  and v in (None, 1)) or (ids == (0, 2, 3) and strnodes and not directed and v is None and w == (None, None)) \
                             or (directed and ids == (0, 1) and not strnodes and v in (None, 1) and w in ((None, None), (1, 1))) \
                             or (directed and ids == (0, 1, 2) and N == 3 and not strnodes and v is None and w == (None, None) and part == 0)
+                        keep = quick or (not directed and N == 3 and v in (None, 1)) \
+                            or (not directed and N == 4 and not strnodes and w == (None, None) and v is None) \
+                            or (directed and ids == (0, 1, 2) and N == 3 and not strnodes and w == (None, None) and v is None) \
+                            or (directed and ids == (0, 1))
+                        if not keep:
+                            continue
                         REG.add("all_%s_%s_ids%s_N%d_v%s_w%s%s%s" % ("d" if directed else "u", "str" if strnodes else "int",
                                                                      "".join(map(str, ids)), N, "N" if v is None else v,
                                                                      "N" if w[0] is None else w[0], "N" if w[1] is None else w[1],
@@ -204,7 +210,7 @@ def T_eager(pb: B48) -> bool:
 
 
 def eager_body(cfg, pb):
-    names, dec = eager(cfg["N"], cfg["ids"], cfg["directed"], pb, cfg["strnodes"])
+    names, dec = eager(cfg["N"], cfg["ids"], cfg["directed"], pb, cfg["strnodes"], cfg.get("prefix", ()))
     if sum(1 for x in dec.values() if x) >= 3:
         reach("three_interactions")
     return models.untraced(eager_run, cfg, names, dec)
@@ -261,5 +267,17 @@ for directed, ids in ((False, [0, 1, 2]), (True, [0, 1])):
                        ("DynDiGraph" if directed else "DynGraph", "string" if strnodes else "int", ids),
                 what="on the real class: every returned path is genuine (C12), the result equals the brute-force enumeration when u is "
                      "present at start and is empty otherwise (C13), all_time_respecting_paths equals the per-source union")
+
+
+
+for _N, _ids, _pl in ((3, [0, 1, 2, 3], 1), (4, [0, 1], 1), (3, [1, 3, 4, 6], 1), (3, [0, 1, 2, 3, 4], 4)):
+    for _pi in range(2 ** _pl):
+        _prefix = [bool(_pi >> k & 1) for k in range(_pl)]
+        REG.add("eager_u_N%d_ids%s_p%d" % (_N, "".join(map(str, _ids)), _pi), T_eager, eager_body,
+                cfg=dict(directed=False, ids=_ids, N=_N, strnodes=False, prefix=_prefix), tier="thorough", timeout=6000,
+                tags=["three_interactions"], twins=1,
+                bounds="EVERY real DynGraph on %d int nodes over snapshot ids %s whose first %d presence bits are %s (partition %d of "
+                       "%d), built through the public API; every source/root, target, window" % (_N, _ids, _pl, _prefix, _pi, 2 ** _pl),
+                what="as eager_u_int on a larger universe")
 
 h_c12._register_eager()
